@@ -71,7 +71,7 @@ class SrcGen:
             if not self.includes: ty = "write"; multi = True; prefix = prefix or "-"
             else:
                 t = r.choice(self.includes)
-                if self.allow_errors and r.chance(1, 50): t = "missing_file.txt"
+                if self.allow_errors and r.chance(1, 15): t = r.choice(["missing_file.txt", "sub/missing.md", "nodir/x.txt"])
                 args = [t]
         if ty == "run":
             marker = None
